@@ -376,7 +376,14 @@ private:
 			}
 		}
 
-		using NextPrototypeInfo = FindPrototypeByCallableFromIndex<PrototypeInfo::index + 1, PrototypeList, F>;
+		// Continue with the next prototype, after the current one, that the predicate can be called with.
+		using NextPrototypeInfo = FindPrototypeByCallableFromIndex<
+			PrototypeInfo::index + 1,
+			typename DropPrototypes<PrototypeInfo::index + 1, PrototypeList>::Type,
+			F,
+			FindPrototypeDefaultArgTransformer,
+			HeterTupleSize<PrototypeList>::value
+		>;
 		if(doProcessIf<NextPrototypeInfo>(std::forward<F>(func))) {
 			return true;
 		}
